@@ -32,6 +32,7 @@ def _scan_args(s, i):
     args = []
     cur = []
     depth = 0
+    pdepth = 0      # parentheses inside a value, as in the enum label `(none)`
     quote = None
     n = len(s)
     while i < n:
@@ -51,6 +52,12 @@ def _scan_args(s, i):
             cur.append(c)
         elif c == ']':
             depth -= 1
+            cur.append(c)
+        elif c == '(':
+            pdepth += 1
+            cur.append(c)
+        elif c == ')' and pdepth > 0:
+            pdepth -= 1
             cur.append(c)
         elif c == ')' and depth <= 0:
             if cur or args:
@@ -106,7 +113,7 @@ def parse_value(v):
         return {'kind': 'array', 'values': None}
     if v.startswith('[') and v.endswith(']'):
         inner, _ = _scan_args(v[1:-1] + ')', 0)
-        return {'kind': 'array', 'values': [parse_value(x) for x in inner]}
+        return {'kind': 'array', 'values': [parse_arg(x) for x in inner]}
     if v.startswith('Unknown: '):
         try:
             return {'kind': 'unknown', 'text': ast.literal_eval(v[len('Unknown: '):])}
